@@ -122,22 +122,52 @@ pub mod counters {
         c.load(Ordering::SeqCst)
     }
 
+    /// Bumped by `verif::reset()`: hook events of workers that belong to an earlier cache under test
+    /// (a worker that is still winding down) are not counted for the current one.
+    pub static GENERATION: AtomicU64 = AtomicU64::new(0);
+
     /// Lives inside a background worker; its drop marks the worker's end (return or unwind).
     pub struct WorkerGuard {
         policy: bool,
+        generation: u64,
     }
     impl WorkerGuard {
         pub fn cache() -> Self {
             inc(&CACHE_WORKERS_STARTED);
-            Self { policy: false }
+            Self { policy: false, generation: GENERATION.load(Ordering::SeqCst) }
         }
         pub fn policy() -> Self {
             inc(&POLICY_WORKERS_STARTED);
-            Self { policy: true }
+            Self { policy: true, generation: GENERATION.load(Ordering::SeqCst) }
+        }
+        #[inline]
+        pub fn current(&self) -> bool {
+            self.generation == GENERATION.load(Ordering::SeqCst)
+        }
+        #[inline]
+        pub fn inc(&self, c: &AtomicU64) {
+            if self.current() {
+                inc(c);
+            }
+        }
+        #[inline]
+        pub fn add(&self, c: &AtomicU64, n: u64) {
+            if self.current() {
+                add(c, n);
+            }
+        }
+        #[inline]
+        pub fn set(&self, c: &AtomicU64, v: u64) {
+            if self.current() {
+                c.store(v, Ordering::SeqCst);
+            }
         }
     }
     impl Drop for WorkerGuard {
         fn drop(&mut self) {
+            if !self.current() {
+                return;
+            }
             if std::thread::panicking() {
                 inc(&WORKERS_PANICKED);
             }
@@ -556,7 +586,10 @@ impl PushedKeys for Vec<u64> {
 }
 
 /// Called by the policy worker, under the policy lock, just before it records a batch.
-pub(crate) fn applied(keys: &[u64]) {
+pub(crate) fn applied(guard: &counters::WorkerGuard, keys: &[u64]) {
+    if !guard.current() {
+        return;
+    }
     counters::inc(&counters::POLICY_BATCHES_APPLIED);
     counters::add(&counters::POLICY_KEYS_APPLIED, keys.len() as u64);
     observe::emit(|seq| observe::Ev::Applied {
@@ -599,6 +632,7 @@ pub fn reset() {
     let _ = observe::take();
     ticker::disarm();
     clock::disarm();
+    counters::GENERATION.fetch_add(1, std::sync::atomic::Ordering::SeqCst);
     counters::reset();
 }
 
